@@ -444,6 +444,10 @@ var stdEffects = map[string]effect{
 	"strconv.Itoa":                   effNone,
 	"encoding/binary.Write":          effRecvOnly, // writes to the io.Writer (argument 0), reads data
 	"strings.Join":                   effNone,
+	"strings.Contains":               effNone,
+	"strings.TrimPrefix":             effNone,
+	"strings.Compare":                effNone,
+	"strings.HasPrefix":              effNone,
 	"(*strings.Builder).WriteString": effRecvOnly,
 	"time.Unix":                      effNone,
 	"(time.Time).Unix":               effNone,
